@@ -742,12 +742,65 @@ func RequestContext(parent context.Context, invocationPath, targetID string, scr
 
 // Execute starts an Execute RPC in a tracked goroutine.
 func (e *Env) Execute(req *remoteexecution.ExecuteRequest, invocationPath string, script SelScript, authGate *Gate, sendGate *Gate, sendErr error) *Call {
+	return e.ExecuteOpt(req, invocationPath, script, authGate, sendGate, sendErr, false)
+}
+
+// ExecuteOpt is Execute with the option of leaving the RequestMetadata
+// header out of the request (only meaningful for the empty invocation path).
+func (e *Env) ExecuteOpt(req *remoteexecution.ExecuteRequest, invocationPath string, script SelScript, authGate *Gate, sendGate *Gate, sendErr error, noMetadata bool) *Call {
 	call := e.Go("Execute", context.Background(), func(ctx context.Context, c *Call) {
-		c.Stream = &Stream{ctx: RequestContext(ctx, invocationPath, "", script, authGate), seq: &Seq, sendGate: sendGate, sendErr: sendErr}
+		rctx := RequestContext(ctx, invocationPath, "", script, authGate)
+		if noMetadata {
+			rctx = RequestContextWithoutMetadata(ctx, script, authGate)
+		}
+		c.Stream = &Stream{ctx: rctx, seq: &Seq, sendGate: sendGate, sendErr: sendErr}
 	}, func(ctx context.Context, c *Call) {
 		c.Err = e.BQ.Execute(req, c.Stream)
 	})
 	return call
+}
+
+// RequestContextWithoutMetadata builds the context of an Execute request
+// that carries no RequestMetadata header at all (clients need not send one).
+func RequestContextWithoutMetadata(parent context.Context, script SelScript, authGate *Gate) context.Context {
+	ctx := context.WithValue(parent, scriptKeyType{}, &routeInfo{script: script})
+	if authGate != nil {
+		ctx = context.WithValue(ctx, gateKeyType{}, authGate)
+	}
+	return ctx
+}
+
+// WorkerResult builds the ActionResult part of a worker's response: every
+// part a client reads (exit code, outputs, logs, execution metadata) is
+// filled in and unique for the token.
+func WorkerResult(token string, exitCode int32) *remoteexecution.ActionResult {
+	sum := sha256.Sum256([]byte("out-" + token))
+	return &remoteexecution.ActionResult{
+		ExitCode:     exitCode,
+		StdoutRaw:    []byte("stdout of " + token),
+		StderrDigest: &remoteexecution.Digest{Hash: hex.EncodeToString(sum[:]), SizeBytes: 17},
+		OutputFiles: []*remoteexecution.OutputFile{
+			{Path: "out/" + token, Digest: &remoteexecution.Digest{Hash: hex.EncodeToString(sum[:]), SizeBytes: 42}, IsExecutable: true},
+		},
+		ExecutionMetadata: &remoteexecution.ExecutedActionMetadata{
+			Worker:                   "worker-of-" + token,
+			VirtualExecutionDuration: durationpb.New(3*time.Second + time.Duration(len(token))*time.Millisecond),
+		},
+	}
+}
+
+// DecorateWorkerResponse fills in the parts of an ExecuteResponse outside
+// the ActionResult.
+func DecorateWorkerResponse(resp *remoteexecution.ExecuteResponse, token string) {
+	sum := sha256.Sum256([]byte("log-" + token))
+	resp.ServerLogs = map[string]*remoteexecution.LogFile{
+		"log-" + token: {Digest: &remoteexecution.Digest{Hash: hex.EncodeToString(sum[:]), SizeBytes: 5}, HumanReadable: true},
+	}
+}
+
+// KillDetails are the status details operators attach to KillOperations.
+func KillDetails() []*anypb.Any {
+	return []*anypb.Any{InvocationAny("operator-detail")}
 }
 
 // KillOperationGated starts a KillOperations RPC (operation name filter)
